@@ -74,4 +74,76 @@ def symImages (s : State) : List (State × Sym) :=
   let all : List (State × Sym) := (List.finRange 8).map (fun k => (k.state s, k))
   all.foldl (fun out (im : State × Sym) => if out.any (fun o => o.1 == im.1) then out else out ++ [im]) []
 
+/-! ### raw moves and the canonical form at list level -/
+
+/-- type code of a direction -/
+def dirCode : Dir → Nat
+  | .left => Facts.mtSlideLeft | .right => Facts.mtSlideRight | .up => Facts.mtSlideUp | .down => Facts.mtSlideDown
+
+/-- direction of a slide type code -/
+def dirOf (t : Nat) : Option Dir :=
+  if t == Facts.mtSlideLeft then some .left else if t == Facts.mtSlideRight then some .right
+  else if t == Facts.mtSlideUp then some .up else if t == Facts.mtSlideDown then some .down else none
+
+/-- image of a raw move value: origin mapped, slide direction mapped, drop word kept; a value that is not a
+slide keeps its type code and carries no drop word (what `TransformMove` returns, in plain integers) -/
+def Sym.raw (k : Sym) (n : Int) (m : Tak.Move) : Tak.Move :=
+  let p := k.app n m.x m.y
+  match dirOf m.type with
+  | some d => { x := p.1, y := p.2, type := dirCode (k.dir d), slides := m.slides }
+  | none => { x := p.1, y := p.2, type := m.type, slides := 0#32 }
+
+/-- the empty board of a new game (`tak.New(Config{Size: n})`) -/
+def startState (n : Nat) : State :=
+  { size := n, blackWinsTies := false, squares := List.replicate (n * n) [], ply := 0,
+    whiteStones := Facts.defaultPieces.getD n 0, whiteCaps := Facts.defaultCaps.getD n 0,
+    blackStones := Facts.defaultPieces.getD n 0, blackCaps := Facts.defaultCaps.getD n 0 }
+
+/-- which of two candidate moves the canonical form prefers: lower row, then lower column, then lower type code -/
+def prefer (l r : Tak.Move) : Bool :=
+  if l.y ≠ r.y then l.y < r.y
+  else if l.x ≠ r.x then l.x < r.x
+  else l.type < r.type
+
+/-- the scan of `Canonical` over the boards that still equal board 0; board `k` is the `k`-image of board 0 -/
+def canonScan (b0 : State) (m : Tak.Move) : List Sym → Tak.Move × Option Sym → Tak.Move × Option Sym
+  | [], acc => acc
+  | k :: ks, (best, rot) =>
+    if k.state b0 = b0 then
+      if prefer (k.raw b0.size m) best then canonScan b0 m ks (k.raw b0.size m, some k)
+      else canonScan b0 m ks (best, rot)
+    else canonScan b0 m ks (best, rot)
+
+structure CanonSt where
+  b0 : State
+  tfn : Sym
+  out : List Tak.Move
+deriving Repr
+
+def canonStep (st : CanonSt) (m0 : Tak.Move) : Option CanonSt :=
+  let m := st.tfn.raw st.b0.size m0
+  let r := canonScan st.b0 m [1, 2, 3, 4, 5, 6, 7] (m, none)
+  let tfn' := match r.2 with | some k => Sym.mul k st.tfn | none => st.tfn
+  let m' := match r.2 with | some _ => r.1 | none => m
+  match step st.b0 (decode m') with
+  | none => none
+  | some b => some ⟨b, tfn', st.out ++ [(0 : Sym).raw st.b0.size m']⟩
+
+def canonRun : CanonSt → List Tak.Move → Option CanonSt
+  | st, [] => some st
+  | st, m :: ms => match canonStep st m with
+    | none => none
+    | some st' => canonRun st' ms
+
+/-- **the canonical form of a game at list level** (`none`: some move is illegal) -/
+def canon (n : Nat) (ms : List Tak.Move) : Option (List Tak.Move) :=
+  (canonRun ⟨startState n, 0, []⟩ ms).map (·.out)
+
+/-- replaying a game by the rule book -/
+def replay : State → List Tak.Move → Option State
+  | s, [] => some s
+  | s, m :: ms => match step s (decode m) with
+    | none => none
+    | some s' => replay s' ms
+
 end Spec
